@@ -81,6 +81,18 @@ func decodeSmtString(v string) string {
 }
 
 // modelJSON renders a solver model in the format the native vf runtime reads.
+// discreteSig is the assignment of a counterexample's integer and boolean inputs.
+func discreteSig(c Cex) string {
+	var parts []string
+	for k, v := range c.Model {
+		if c.Sorts[k] == "Int" || c.Sorts[k] == "Bool" {
+			parts = append(parts, k+"="+v)
+		}
+	}
+	sort.Strings(parts)
+	return strings.Join(parts, ",")
+}
+
 func modelJSON(c Cex) []byte {
 	ints, bools, strs := map[string]int64{}, map[string]bool{}, map[string]string{}
 	for k, raw := range c.Model {
@@ -438,12 +450,22 @@ func runHarness(pkgDir, harness string, loopBound, nval int, seed int64, maxPath
 	res.Functions, res.Models, res.Havoc, res.Bounds = keysSorted(e.funcs), keysSorted(e.models), keysSorted(e.havoc), keysSorted(e.bounds)
 
 	// native side: validation of sampled paths, replay of counterexamples
+	// one counterexample per violated obligation is reported; up to altMax further witnesses of the same obligation
+	// (found on other paths) are kept as alternates and replayed if the first does not reproduce natively - a witness
+	// that runs through an over-approximated decoder may not be realisable while one from a well-formed input is
+	const altMax = 5
 	seen := map[string]bool{}
 	var cexs []Cex
+	alts := map[string][]Cex{}
 	for _, c := range e.Cex {
 		if !seen[c.What] {
 			seen[c.What] = true
+			seen[c.What+"|"+discreteSig(c)] = true
 			cexs = append(cexs, c)
+		} else if sig := c.What + "|" + discreteSig(c); len(alts[c.What]) < altMax && !seen[sig] {
+			// alternates are chosen to differ in their discrete inputs (scenario kinds, flags), not just in string contents
+			seen[sig] = true
+			alts[c.What] = append(alts[c.What], c)
 		}
 	}
 	if len(validations) > 0 || len(cexs) > 0 {
@@ -491,6 +513,16 @@ func runHarness(pkgDir, harness string, loopBound, nval int, seed int64, maxPath
 			// does not reproduce at once is replayed a few more times before it is called unconfirmed
 			for try := 0; try < 4 && !reproduced(c.What, nr) && rp.err == ""; try++ {
 				nr = rp.run(harness, mj)
+			}
+			for _, a := range alts[c.What] {
+				if reproduced(c.What, nr) || rp.err != "" {
+					break
+				}
+				if amj := modelJSON(a); string(amj) != string(mj) {
+					if anr := rp.run(harness, amj); reproduced(a.What, anr) {
+						c, mj, nr = a, amj, anr
+					}
+				}
 			}
 			co := CexOut{What: c.What, Model: c.Model, Slack: c.Slack, Reproduced: reproduced(c.What, nr), modelJSON: mj}
 			var lines []string
